@@ -47,8 +47,9 @@ class Opt:
 
 
 class Star:
-    def __init__(self, *items, min=0, max=None):
-        self.items, self.min, self.max = list(items), min, max
+    def __init__(self, *items, min=0, max=None, reps=None):
+        # reps: unroll this repetition up to `reps` times at the top level even where the default (MAXREP) is smaller
+        self.items, self.min, self.max, self.reps = list(items), min, max, reps
 
 
 class Prod:
@@ -115,6 +116,8 @@ class Grammar:
             elif isinstance(sym, Star):
                 subs = self.expand_rhs(sym.items, maxrep)
                 mr = maxrep if sym.max is None else min(maxrep, sym.max)
+                if sym.reps is not None and maxrep >= self.MAXREP:
+                    mr = sym.reps
                 for flat, st in alts:
                     reps = [(flat, [])]
                     for k in range(0, mr + 1):
@@ -348,6 +351,17 @@ class AnyInside:
 ANY_INSIDE = AnyInside()
 
 
+class AnyInsideOrNone(AnyInside):
+    """For node kinds the coordinate property does not oblige to carry a coordinate (InitList, NamedInitializer, ...):
+    no coordinate, or a token inside the construct."""
+
+    def __repr__(self):
+        return "<no coordinate, or the coord of a token inside the construct>"
+
+
+ANY_INSIDE_OR_NONE = AnyInsideOrNone()
+
+
 class Outcome:
     def __init__(self, kind, detail="", result=None, run=None):
         self.kind, self.detail, self.result, self.run = kind, detail, result, run
@@ -392,7 +406,7 @@ class GX:
             def __init__(self, mark, value, column):
                 object.__setattr__(self, "mark", mark)
                 object.__setattr__(self, "value", value)
-                object.__setattr__(self, "lineno", 1)
+                object.__setattr__(self, "lineno", column)   # token k stands alone on line k+1, column k+1
                 object.__setattr__(self, "column", column)
 
             @property
@@ -413,7 +427,7 @@ class GX:
             def __init__(self, ctx, k, column):
                 object.__setattr__(self, "ctx", ctx)
                 object.__setattr__(self, "k", k)
-                object.__setattr__(self, "lineno", 1)
+                object.__setattr__(self, "lineno", column)   # token k stands alone on line k+1, column k+1
                 object.__setattr__(self, "column", column)
 
             @property
@@ -595,9 +609,9 @@ class GX:
                 if isinstance(n.tok, T):
                     spec = n.tok
                     n.tok = self.Token(spec.type, spec.value if spec.value is not None else self.spelling(spec.type, len(toks)),
-                                       1, len(toks) + 1)
+                                       len(toks) + 1, len(toks) + 1)
                 else:
-                    n.tok = self.Token(n.tok.type, n.tok.value, 1, len(toks) + 1)
+                    n.tok = self.Token(n.tok.type, n.tok.value, len(toks) + 1, len(toks) + 1)
                 toks.append(n.tok)
                 nodes.append(n)
             elif isinstance(n, Mark):
@@ -623,7 +637,7 @@ class GX:
                 toks.append(self.FollowTok(follow, k, len(toks) + 1))
         else:
             for ft in follow:
-                toks.append(self.Token(ft, self.spelling(ft, len(toks)), 1, len(toks) + 1) if ft else None)
+                toks.append(self.Token(ft, self.spelling(ft, len(toks)), len(toks) + 1, len(toks) + 1) if ft else None)
         toks.append(None)
         return toks, nodes, n_form
 
@@ -696,9 +710,11 @@ class GX:
 
     def resolve_coords(self, v, node, memo=None):
         """A value handed out by a stub needs concrete coordinates: take the first token of its construct."""
+        if getattr(self, "keep_any_inside", False):
+            return v   # concrete replays compare against "some token of the form" everywhere
         memo = set() if memo is None else memo
         if isinstance(v, AnyInside):
-            return self.Coord("f.c", 1, node.start + 1)
+            return self.Coord("f.c", node.start + 1, node.start + 1)
         if id(v) in memo or isinstance(v, self.Opaque):
             return v
         memo.add(id(v))
@@ -829,6 +845,8 @@ class GX:
 
     def coord_diff(self, g, e, allowed, path):
         if isinstance(e, AnyInside):
+            if g is None and isinstance(e, AnyInsideOrNone):
+                return None
             if g is None:
                 return f"{path}: no coordinate (must be a token inside the construct)"
             key = (g.file, g.line, g.column) if isinstance(g, self.Coord) else g
@@ -858,6 +876,7 @@ class AStream:
     def peek(self, k=1):
         if k <= 0:
             return None
+        self.run.max_peek = max(getattr(self.run, "max_peek", 0), k)
         i = self._index + k - 1
         if k >= 2:
             for j in range(self._index, i):
@@ -974,6 +993,7 @@ class Run:
                 self.consumed_marks.add(id(n))
             else:
                 n.consumed = True
+            self.check_stack(f"when it calls {name}")
             v = gx.value_of(n)
             if id(n) not in self.snap:
                 self.snap[id(n)] = gx.snapshot(v) if not callable(v) else v
@@ -989,6 +1009,13 @@ class Run:
 
         stub.__name__ = name
         return stub
+
+    def check_stack(self, when):
+        """Scopes are opened and closed by the lexer's brace callbacks only; no token is lexed in a GX run, so the stack the
+        method sees must stay the one it was entered with (C04: a name is entered into the innermost scope as of its token)."""
+        if [id(d) for d in self.parser._scope_stack] != self.stack_ids and len(self.stack_moves) < 3:
+            self.stack_moves.append(f"the method has changed the scope stack itself {when} "
+                                    f"(depth {len(self.parser._scope_stack)}, entered with {len(self.stack_ids)})")
 
     def describe(self, i):
         t = self.toks[i] if i < len(self.toks) else None
@@ -1029,10 +1056,13 @@ class Run:
             real = getattr(gx.CParser, nm)
 
             def reg(name, coord, real=real, kind=kind, p=p):
+                self.check_stack(f"when it registers {name}")
                 self.registrations.append((name, kind))
                 self.events.append(("register", name))
                 return real(p, name, coord)
             setattr(p, nm, reg)
+        self.stack_ids = [id(d) for d in p._scope_stack]
+        self.stack_moves = []
         fn = gx.CParser.__dict__[self.method]
         gx.stats["runs"] += 1
         try:
@@ -1057,6 +1087,7 @@ class Run:
             tb = traceback.extract_tb(e.__traceback__)
             where = [f"{f.name}:{f.lineno}" for f in tb if "pycparser" in f.filename]
             return Outcome("exception", f"{type(e).__name__}: {e} at {where[-1] if where else '?'}", None, self)
+        self.check_stack("when it returns")
         end = p._tokens._index
         if end != self.n_form:
             return Outcome("consumption", f"consumed {end} of the {self.n_form} tokens of the construct "
@@ -1110,7 +1141,7 @@ REAL_RECURSIVE = {"_parse_binary_expression"}
 
 
 def explore(gx: GX, method: str, nt: str, prod: Prod, flat, shape, follow, args=(), kwargs=None,
-            real=(), on_done=None, budget=4000):
+            real=(), on_done=None, budget=4000, on_limit=None):
     """Run `method` on every lazy refinement (first-token choices, marker expansions, result shapes, follow contexts) of one
     flat production.  `follow` is a list of token types, or a list of candidate follow tuples to be chosen lazily
     (only when the code looks beyond the construct).  Calls on_done(outcome) per completed run."""
@@ -1154,7 +1185,9 @@ def explore(gx: GX, method: str, nt: str, prod: Prod, flat, shape, follow, args=
             m = e.mark
             nvar = len(gx.g.nts[m.nt].value_variants)
             # one non-default result shape per run (each slot is varied in turn)
-            already = any(isinstance(x, Mark) and x.variant for x in _walk(tree))
+            # ... and one more of a DIFFERENT nonterminal (e.g. an `_Atomic(int)` specifier list with a pointer declarator)
+            nd = [x.nt for x in _walk(tree) if isinstance(x, Mark) and x.variant]
+            already = len(nd) >= 2 or m.nt in nd
             for k in range(nvar if not already else 1):
                 fork(lambda memo, k=k: setattr(memo[id(m)], "variant", k))
             continue
@@ -1172,6 +1205,8 @@ def explore(gx: GX, method: str, nt: str, prod: Prod, flat, shape, follow, args=
             m = e.mark
             if m.depth >= gx.MAXDEPTH:
                 notes.append(f"expansion depth limit at <{m.nt}> in {prod.label}")
+                if on_limit:
+                    on_limit(tree, fol)   # the caller may continue with complete derivations run natively (bounded)
                 continue
             if m.first is None:
                 cs = gx.class_reps(gx.g.first[m.nt])
@@ -1270,7 +1305,7 @@ class WildStream:
         if ty is None:
             return None
         if i not in self.toks:
-            self.toks[i] = self.gx.Token(ty, self.gx.spelling(ty, i), 1, i + 1)
+            self.toks[i] = self.gx.Token(ty, self.gx.spelling(ty, i), i + 1, i + 1)
         return self.toks[i]
 
     def peek(self, k=1):
@@ -1337,7 +1372,7 @@ class MayRun:
                 m.start = m.end = i
                 v = gx.value_of(m)
             else:
-                self.parser._parse_error("callee %s rejects this token" % name, gx.Coord("f.c", 1, i + 1))
+                self.parser._parse_error("callee %s rejects this token" % name, gx.Coord("f.c", i + 1, i + 1))
             if gx.g.nts[nt].args.get("apply"):
                 return v(*a, **kw)
             return v
